@@ -1,5 +1,6 @@
 (* Wire-level entry point of the C16 model (SD-JWT credentials and key-binding JWTs).
    kind 1: sd_decodes <C02 token> <C02 issuers> <C02 opts>            -> as C02 (validate with the first issuer)
+   kind 3: as kind 1, but SdJwtCredentialValidator::verify_signature over ALL the trusted issuers (no units)
    kind 2: now present sd_ok digest decodes typ? kidtag [d r f] sigkey claimsflag [sd_hash nonce aud iat]
            <C04 document of the holder> nonce? aud? midflag [d r f] scope earliest? latest?
            -> 0 sd_hash nonce aud iat | 1 err | -777 (panic) *)
@@ -29,6 +30,11 @@ Definition c16_run (input : list Z) : list Z :=
           match is with
           | i :: _ => match sd_validate {| sd_tok := t; sd_decodes := sd |} i o ff with inl c => 0 :: w_vcred c | inr es => 1 :: Z.of_nat (length es) :: map verr_code es end
           | [] => ERR_DECODE end
+      | None => ERR_DECODE end
+    else if k =? 3 then
+      match (sd <- rb ;; t <- rtoken ;; is <- rlist rissuer ;; o <- ropts ;; ret (sd, t, is, o)) l with
+      | Some ((sd, t, is, (o, ff)), _) =>
+          match sd_verify_signature {| sd_tok := t; sd_decodes := sd |} is o with inl c => 0 :: w_vcred c | inr e => [1; 1; verr_code e] end
       | None => ERR_DECODE end
     else if k =? 2 then
       match (now <- rz ;; t <- rkb ;; h <- rdoc ;; o <- rkbopts ;; ret (now, t, h, o)) l with
